@@ -38,6 +38,14 @@ CHECKS = {
         "level_note": "Names with dots inside labels, trailing dots and non-canonical IP lengths are not generated (outside the package's documented name/IP conventions).",
         "assumptions": ["x/net dnsmessage v0.59.0 is correct for the generated packets"],
     },
+    "C14": {
+        "stages": [rapid_stage("C14", 300, 4000, qshards=4)],
+        "design_ref": "DESIGN.md 5 C14",
+        "technique": "model-based property testing (rapid): random zones behind a loopback DoH server vs. a reference RFC 9460 resolver over the zone model; query-log invariants; poison markers",
+        "level_text": "Randomised exploration of zones x name forms with a reference resolver as the oracle; the server's packets come from an independent codec; every query the resolver sends is checked against the set of names an RFC 9460 resolution may ask.",
+        "level_note": "Alias chains deeper than 2 links accept either the full resolution or the documented fall-back; mixed alias/service RRsets and answers with CNAMEs after their targets are not generated.",
+        "assumptions": ["the fake server answers like a recursive resolver (CNAME chain then data)", "lower-case host names only"],
+    },
     "C15": {
         "stages": [rapid_stage("C15", 10000, 200000)],
         "design_ref": "DESIGN.md 5 C15",
